@@ -4,6 +4,7 @@ import (
 	"bytes"
 	"encoding/binary"
 	"sort"
+	"strings"
 	"time"
 
 	"cosmossdk.io/log"
@@ -72,7 +73,10 @@ type L2Options struct {
 	WrapBankMsg func(banktypes.MsgServer) banktypes.MsgServer
 	// Genesis validators: (operator name, consensus key name)
 	Validators [][2]string
-	Height     int64
+	// UpperCaseGenesisOperators spells the operator addresses of the genesis validators in upper-case bech32
+	// (a genesis file is written by hand; the spelling is legal and is stored as written)
+	UpperCaseGenesisOperators bool
+	Height                    int64
 	// Blank leaves every store empty (no params, no genesis, no accounts): the target of a genesis import.
 	Blank bool
 }
@@ -199,6 +203,9 @@ func NewL2(opt L2Options) *L2 {
 		val, err := opchildtypes.NewValidator(sdk.ValAddress(Addr(v[0])), EdKey(v[1]).PubKey(), v[0])
 		if err != nil {
 			panic(err)
+		}
+		if opt.UpperCaseGenesisOperators {
+			val.OperatorAddress = strings.ToUpper(val.OperatorAddress)
 		}
 		gs.Validators = append(gs.Validators, val)
 	}
